@@ -91,6 +91,8 @@ def cases(draw):
         s = draw(st.sampled_from(cands))
         ops = NV[s][2]
         q = draw(st.integers(0, len(ops) - 1))
+        if draw(st.integers(0, 5)) == 0:
+            q = len(ops)  # one past the last real operand: there is no operand for the $not to consume
         pre = []
         for o in ops[:q]:
             d = describe_operand(draw, o, full[1])
@@ -99,14 +101,15 @@ def cases(draw):
         if arg in ("decoy", "group-match", "group-first-only"):
             x = decoy_operand(draw)
         elif arg in ("site", "item-ops"):
-            x = describe_operand(draw, ops[q], full[1])
+            x = describe_operand(draw, ops[q], full[1]) if q < len(ops) else decoy_operand(draw)
         else:  # next
             x = describe_operand(draw, ops[q + 1], full[1]) if q + 1 < len(ops) else decoy_operand(draw)
         assume(x is not None)
         if draw(st.integers(0, 4)) == 0:
             x = {"$or": [x, decoy_operand(draw)]}
         post = []
-        for o in ops[q + 1: q + 1 + draw(st.integers(0, 2))]:
+        skip = 1 if (q + 2 < len(ops) and draw(st.integers(0, 3)) == 0) else 0  # near miss: the item after $not describes a LATER operand
+        for o in ops[q + 1 + skip: q + 1 + skip + draw(st.integers(0 if not skip else 1, 2))]:
             d = describe_operand(draw, o, full[1])
             if d is None:
                 break
